@@ -160,20 +160,43 @@ func checkC19(c *ProgCase) *Outcome {
 	apiChecked := false
 	if run.HostableEnv(c.Env) && !hasFunEnv(c) && !usesHarness {
 		apiChecked = true
-		host := run.EnvStruct(c.Vals)
-		var dv, evv *val.Val
-		var derr, eerr error
-		dp := run.Guard(func() { dv, _, derr = yae.Debug(r.Src, host) })
-		ep := run.Guard(func() { evv, eerr = yae.Eval(r.Src, host) })
-		dfail, efail := dp != nil || derr != nil, ep != nil || eerr != nil
-		if dfail != efail || dfail != (wf != nil) {
-			return bad("Debug %s, Eval %s, by the rules the program %s\n src: %s\n env: %s", outcomeText(dv, derr, dp), outcomeText(evv, eerr, ep), expectText(&CaseRun{RefVal: wv, RefFail: wf}), r.Src, envSummary(c))
+		judge := func(host interface{}, what string) *Outcome {
+			var dv, evv *val.Val
+			var derr, eerr error
+			dp := run.Guard(func() { dv, _, derr = yae.Debug(r.Src, host) })
+			ep := run.Guard(func() { evv, eerr = yae.Eval(r.Src, host) })
+			dfail, efail := dp != nil || derr != nil, ep != nil || eerr != nil
+			if dfail != efail || dfail != (wf != nil) {
+				return bad("Debug %s, Eval %s, by the rules the program %s (%s)\n src: %s\n env: %s", outcomeText(dv, derr, dp), outcomeText(evv, eerr, ep), expectText(&CaseRun{RefVal: wv, RefFail: wf}), what, r.Src, envSummary(c))
+			}
+			if !dfail {
+				a, pa := run.FromYaeVal(dv, r.RefType)
+				b, pb := run.FromYaeVal(evv, r.RefType)
+				if len(pa)+len(pb) > 0 || !m.Identical(a, b) || !m.Identical(a, wv) {
+					return bad("Debug yields %s, Eval %s, the rules %s (%s)\n src: %s", renderVal(dv), renderVal(evv), wv.Render(), what, r.Src)
+				}
+			}
+			return nil
 		}
-		if !dfail {
-			a, pa := run.FromYaeVal(dv, r.RefType)
-			b, pb := run.FromYaeVal(evv, r.RefType)
-			if len(pa)+len(pb) > 0 || !m.Identical(a, b) || !m.Identical(a, wv) {
-				return bad("Debug yields %s, Eval %s, the rules %s\n src: %s", renderVal(dv), renderVal(evv), wv.Render(), r.Src)
+		if o := judge(run.EnvStruct(c.Vals), "environment as a Go struct"); o != nil {
+			return o
+		}
+		// the same source once more with environments of ONE Go type (map[string]interface{}):
+		// first a sibling that binds every name to a number and lacks one name, then the real one
+		if mp, okm := run.EnvMap(conformAll(c.Vals)); okm && len(mp) > 0 {
+			sibling := map[string]interface{}{}
+			first := true
+			for _, n := range sortedNames(c.Vals) {
+				if first && len(mp) > 1 {
+					first = false
+					continue
+				}
+				sibling[n] = 0.0
+			}
+			_ = run.Guard(func() { _, _, _ = yae.Debug(r.Src, sibling) })
+			_ = run.Guard(func() { _, _ = yae.Eval(r.Src, sibling) })
+			if o := judge(mp, "environment as map[string]interface{}, after a call with the same source over a differently typed map"); o != nil {
+				return o
 			}
 		}
 	}
@@ -263,7 +286,7 @@ var c19apiOpt = gen.ProgOpt{Fuel: 4, Partial: true, Sugar: true, Maybe: true, Ti
 var c19api = Register(&Prop[ProgCase]{ID: "C19", Name: "debug-api", Gen: genProgCase(c19apiOpt, nil), Check: checkC19})
 
 func TestC19(t *testing.T) {
-	R.Rule = "accepted single-line programs (ASCII and non-ASCII identifiers and strings, sugar, unevaluated lazy branches, failing operands) over conforming environments; oracle: (a) yae.Debug returns the same value / failure as Eval and the reference; (b) closure.DebugCompile with a debug.Record read through the hook records exactly the reference evaluator's evaluated variable / call / member / subscript terms, in completion order, each with its value and the column of its own token + 1 (identifier start, operator token, '(' of a call, '.', '['); (c) Render does not fail, its first line is the source and every recorded single-line value appears at its column on a later line; (d) a second and third evaluation of the same compiled expression with the same record give the same entries and report; non-trivial = >= 3 recorded terms and an unevaluated branch, a non-ASCII rune before a recorded term, or two values competing for a line"
+	R.Rule = "accepted single-line programs (ASCII and non-ASCII identifiers and strings, sugar, unevaluated lazy branches, failing operands) over conforming environments; oracle: (a) yae.Debug returns the same value / failure as Eval and the reference, with the environment as a Go struct and again as map[string]interface{} after a call with the same source over a differently typed map of the same Go type; (b) closure.DebugCompile with a debug.Record read through the hook records exactly the reference evaluator's evaluated variable / call / member / subscript terms, in completion order, each with its value and the column of its own token + 1 (identifier start, operator token, '(' of a call, '.', '['); (c) Render does not fail, its first line is the source and every recorded single-line value appears at its column on a later line; (d) a second and third evaluation of the same compiled expression with the same record give the same entries and report; non-trivial = >= 3 recorded terms and an unevaluated branch, a non-ASCII rune before a recorded term, or two values competing for a line"
 	R.Assume = []string{"ref.Eval's completion order; model.Print's token positions; lazy functions that force a thunk twice (lz_pick) are outside the domain (one term, two evaluations)"}
 	reportKnown(t, "C19")
 	runRegress(t, "C19")
